@@ -9,7 +9,17 @@ ID = "C05"
 THEOREMS = ["c05_link_is_alias", "c05_link_keeps_attrs", "c05_write_seen_through_all_paths",
             "c05_refused_append_unchanged", "c05_linked_dimension_is_alias", "c05_linked_set_dimension",
             "c05_dimension_write_through", "c05_ticks_and_link_replace_each_other"]
-PROFILE = {"small_names": True, "path_sweep": True,
+PRELUDES = [
+    # a feature whose data is a data frame, re-pointed to an array and back; a data frame refused for a tagged feature
+    [["create", 0, "CBlocks", "a", "t", []], ["create", 1, "CDataArrays", "a", "t", [1, 2]], ["create", 1, "CDataFrames", "b", "t", [3, 4]],
+     ["create", 1, "CTags", "c", "t", [1]], ["create_feature", 4, 3, "untagged"], ["set_link", 5, "RFeatureData", 2],
+     ["set_link", 5, "RFeatureData", 3], ["create_feature", 4, 3, "tagged"], ["create_feature", 4, 2, "tagged"],
+     ["set_link", 6, "RFeatureData", 3], ["set_link", 5, "RFeatureData", 2], ["reopen", False]],
+    [["create", 0, "CBlocks", "a", "t", []], ["create", 1, "CDataArrays", "a", "t", [1, 2]], ["create", 1, "CDataFrames", "b", "t", [3, 4]],
+     ["create", 1, "CDataArrays", "c", "t", [5]], ["create_mtag", 1, "d", "t", 4], ["create_feature", 5, 3, "indexed"],
+     ["set_link", 6, "RFeatureData", 2], ["set_attr", 2, "ALabel", "x"], ["reopen", False]],
+]
+PROFILE = {"small_names": True, "path_sweep": True, "preludes": PRELUDES, "prelude_prob": 0.3,
            "weights": {"create": 7, "mtag": 2, "feature": 4, "append": 16, "lookup_link": 6, "set_attr": 8, "set_link": 4,
                        "remove": 2, "delete": 1, "probe_link": 2, "reopen": 0.6, "bad": 0.3, "lookup": 2}}
 RULE = ("alias histories: a target linked from many lists (groups' member lists, references, source lists, feature data, "
@@ -19,7 +29,8 @@ RULE = ("alias histories: a target linked from many lists (groups' member lists,
         "and every member list / reference list / feature is checked to stay inside its block. At every reopen and at the end of "
         "a history every object reached through a link (member lists, references, positions/extents, feature data, source "
         "lists, metadata, section links) must answer every public property / reader method like the object reached through "
-        "its owning container.")
+        "its owning container. A third of the histories start with a scripted prelude in which a feature's data is a data "
+        "frame, is re-pointed to an array and back (the walk records the kind of object the feature presents).")
 
 
 def predicate(h):
